@@ -148,6 +148,20 @@ def run_case(c):
         except Exception as ex:  # noqa
             res['biogeme'] = exc(ex)
             poisoned = True
+    # Expression.create_function: a function of the array of free parameters (sorted-name order), named aggregated outputs
+    if not poisoned:
+        try:
+            names = sorted(betas)
+            e3 = build(c['tree'], c['betas'])
+            fn = e3.create_function(database=db, gradient=True, hessian=True, bhhh=True)
+            x2 = [betas[n] + (i + 1) * 2.0 ** -7 for i, n in enumerate(names)]
+            r2 = fn(np.array(x2))
+            ref = e.get_value_and_derivatives(betas=dict(zip(names, x2)), database=db, aggregation=True, prepare_ids=True, named_results=True)
+            res['create_function'] = {'x2': x2, 'fn': {'f': float(r2.function), 'g': named_vec(r2.gradient), 'h': named_mat(r2.hessian), 'b': named_mat(r2.bhhh)},
+                                      'ref': {'f': float(ref.function), 'g': named_vec(ref.gradient), 'h': named_mat(ref.hessian), 'b': named_mat(ref.bhhh)}}
+        except Exception as ex:  # noqa
+            res['create_function'] = exc(ex)
+            poisoned = True
     if c.get('third_opinion') and not poisoned:
         res['findiff'] = findiff(e, betas, db)
     return res, poisoned
